@@ -145,7 +145,7 @@ SOURCE_TIE = {
     "C14": ("C14_source", "UserScope.ValidateScopedSigner and UserClaims.HasEmptyPermissions (a scope accepts a claim exactly when the model's validate_scoped_signer does; reflect.DeepEqual an unknown function, instantiated by has_empty_permissions)"),
     "C16": ("C16_source", "Subject.IsContainedIn / HasWildCards and Exports.HasExportContainingSubject (v2 and v1compat; the query is true exactly when some non-nil entry's subject contains the one asked for)"),
     "C18": ("C18_source", "ActivationClaims.HashID itself and cleanSubject (v2 and v1compat; the hash object an opaque value - sha256.New, Write and Sum unknown functions - so HashID is the model's hash_id for every hash function: refused when a part is missing, else base32 of the digest of exactly issuer.subject.cleaned)"),
-    "C19": ("C19_source", "the v1compat Decode(token, target) with parseHeaders and parseClaims (accepts exactly what the model's v1_decode accepts, for every target kind)"),
+    "C19": ("C19_source", "the v1compat Decode(token, target) with parseHeaders and parseClaims (accepts exactly what the model's v1_decode accepts, for every target kind) and the v1compat DecodeGeneric (that Decode into generic claims of its own and nothing before or after it)"),
     "C20": ("C20_source", "TagList / StringList Contains, Add, Remove; CIDRList Contains, Add, Remove (the tag list's, through a pointer conversion) and Set (the model's cidr_set: the list emptied, the lower-cased text split on commas added)"),
 }
 for _pid, (_pf, _fns) in SOURCE_TIE.items():
